@@ -139,10 +139,16 @@ class SlotRef:
             key: context[key] for key in (_COMPONENT_CONTEXT_KEY, "component_vars") if key in context
         }
 
+        # Likewise, the fill is rendered with the RenderContext layer of the template that defined the fill.
+        # Any `{% block %}` tags in the slot's default content must be resolved against the blocks of the
+        # template that defined the slot.
+        self._render_ctx_layer = context.render_context.dicts[-1]
+
     # Render the slot when the template coerces SlotRef to string
     def __str__(self) -> str:
         with self._context.update(self._component_keys):
-            return mark_safe(self._slot.nodelist.render(self._context))
+            with self._context.render_context.push(self._render_ctx_layer):
+                return mark_safe(self._slot.nodelist.render(self._context))
 
 
 class SlotIsFilled(dict):
